@@ -89,6 +89,8 @@ inductive Out
   | invalid
   | dbError
   | assertion
+  /-- `__setstate__`: an instance with that id is already in the cache -/
+  | valueError
   | badCol
   | badHandle
   deriving DecidableEq, Repr
@@ -116,6 +118,10 @@ inductive Op
   | destroy (h : Hnd) (refs : List RefStep)
   | pickle (h : Hnd) (fail : Bool)
   | drop (h : Hnd)
+  /-- `pickle.loads` of a state made by `__getstate__` of an instance of row (cls, id): `snap` = the attribute
+      values in the pickled state (what `__getstate__` keeps: the `_SO_val_*` and the id; NOT the flags, NOT
+      the pending values); `clash` = `cache.tryGet(id)` finds an instance (→ ValueError) -/
+  | unpickle (h : Hnd) (cls : Cls) (id : Id) (snap : Pend) (clash : Bool)
   /-- `cls.deleteBy(...)` / `cls.deleteMany(...)`: the rows `ids` match; instances are not touched -/
   | bulkDelete (cls : Cls) (ids : List Id)
   | oobUpdate (cls : Cls) (id : Id) (c : Col) (v : Val)
@@ -418,6 +424,20 @@ def opPickle (cfg : Cfg) (s : State) (h : Hnd) (fail : Bool) : State × Out :=
   | some o =>
     if cfg.lazyUpdate o.cls && !o.pending.isEmpty then opSyncUpdate s h fail else (s, .ok)
 
+/-- attributes restored from a pickled state -/
+def snapCached (n : Nat) (snap : Pend) : Col → Option Val := fun c => if c < n then plookup c snap else none
+
+def unpickledInst (cfg : Cfg) (cls : Cls) (id : Id) (snap : Pend) : Inst :=
+  { cls := cls, id := id, cached := snapCached (cfg.ncols cls) snap, expired := false, dirty := false,
+    pending := [], obsolete := false, inCache := true }
+
+/-- `__setstate__`: a fresh instance with the pickled attribute values, NOTHING pending, not dirty,
+    registered in the cache (`cache.created`) — or ValueError when the id is already cached -/
+def opUnpickle (cfg : Cfg) (s : State) (h : Hnd) (cls : Cls) (id : Id) (snap : Pend) (clash : Bool) : State × Out :=
+  if (s.objs h).isSome then (s, .badHandle) else
+  if clash then (s, .valueError) else
+  (register s h (unpickledInst cfg cls id snap), .ok)
+
 def opDrop (s : State) (h : Hnd) : State × Out :=
   ({ s with objs := fun k => if k = h then none else s.objs k }, .ok)
 
@@ -437,6 +457,7 @@ def step (cfg : Cfg) (s : State) : Op → State × Out
   | .destroy h refs => opDestroyRefs cfg s h refs
   | .pickle h fail => opPickle cfg s h fail
   | .drop h => opDrop s h
+  | .unpickle h cls id snap clash => opUnpickle cfg s h cls id snap clash
   | .bulkDelete cls ids =>
     ({ logStmt s (.deleteWhere cls) with db := fun c i => if c = cls ∧ ids.contains i = true then none else s.db c i }, .ok)
   | .oobUpdate cls id c v => ({ s with db := updRow s.db cls id [(c, v)] }, .ok)
